@@ -542,6 +542,90 @@ class _CmpInvert(__import__('ast').NodeTransformer):
 
 
 
+class _IfExpToIf(__import__('ast').NodeTransformer):
+  """x = A if c else B  ->  if c: x = A  else: x = B   (statement level)"""
+
+  def _fix(self, body):
+    import ast, copy
+    out = []
+    for s in body:
+      if isinstance(s, ast.Assign) and isinstance(s.value, ast.IfExp):
+        v = s.value
+        out.append(ast.copy_location(ast.If(
+            test=v.test,
+            body=[ast.copy_location(ast.Assign(targets=s.targets,
+                                               value=v.body), s)],
+            orelse=[ast.copy_location(ast.Assign(
+                targets=copy.deepcopy(s.targets), value=v.orelse), s)]), s))
+      else:
+        out.append(s)
+    return out
+
+  def generic_visit(self, n):
+    import ast
+    super().generic_visit(n)
+    for f in ('body', 'orelse', 'finalbody'):
+      b = getattr(n, f, None)
+      if isinstance(b, list) and b and isinstance(b[0], ast.stmt):
+        setattr(n, f, self._fix(b))
+    return n
+
+
+class _IfToIfExp(__import__('ast').NodeTransformer):
+  """if c: x = A  else: x = B  ->  x = A if c else B"""
+
+  def visit_If(self, n):
+    import ast
+    self.generic_visit(n)
+    if len(n.body) == 1 and len(n.orelse) == 1 and all(
+        isinstance(a, ast.Assign) and len(a.targets) == 1
+        for a in (n.body[0], n.orelse[0])) and ast.dump(
+            n.body[0].targets[0]) == ast.dump(n.orelse[0].targets[0]):
+      return ast.copy_location(ast.Assign(
+          targets=n.body[0].targets, value=ast.IfExp(
+              test=n.test, body=n.body[0].value,
+              orelse=n.orelse[0].value)), n)
+    return n
+
+
+class _ChainNest(__import__('ast').NodeTransformer):
+  """x = g(x, a); x = f(x, b)  ->  x = f(g(x, a), b)  (adjacent statements,
+  f's other arguments do not read x)"""
+
+  def _fix(self, body):
+    import ast
+    out = []
+    for s in body:
+      prev = out[-1] if out else None
+      if prev is not None and all(
+          isinstance(t, ast.Assign) and len(t.targets) == 1 and isinstance(
+              t.targets[0], ast.Name) and isinstance(t.value, ast.Call)
+          for t in (prev, s)) and prev.targets[0].id == s.targets[0].id:
+        x = s.targets[0].id
+        c = s.value
+        rest = list(c.args[1:]) + [k.value for k in c.keywords] + [c.func]
+        if c.args and isinstance(c.args[0], ast.Name) and c.args[0].id == x \
+            and not any(isinstance(m, ast.Name) and m.id == x
+                        for r in rest for m in ast.walk(r)) and \
+            prev.value.args and isinstance(prev.value.args[0], ast.Name) \
+            and prev.value.args[0].id == x:
+          c.args[0] = prev.value
+          out[-1] = s
+          continue
+      out.append(s)
+    return out
+
+  def generic_visit(self, n):
+    import ast
+    super().generic_visit(n)
+    for f in ('body', 'orelse', 'finalbody'):
+      b = getattr(n, f, None)
+      if isinstance(b, list) and b and isinstance(b[0], ast.stmt):
+        setattr(n, f, self._fix(b))
+    return n
+
+
+
 GLOBAL_NEUTRALS = [('ast.unparse round trip', None),
                    ('logging call at the top of every function, annotated '
                     'parameters', _LogCall),
@@ -558,7 +642,13 @@ GLOBAL_NEUTRALS = [('ast.unparse round trip', None),
                     _ElseAfterReturn),
                    ('isinstance with a tuple split into an or', _IsinstSplit),
                    ('comparison of two-armed conditionals negated, arms '
-                    'swapped', _CmpInvert)]
+                    'swapped', _CmpInvert),
+                   ('conditional expression assignments as if statements',
+                    _IfExpToIf),
+                   ('two-armed assignment ifs as conditional expressions',
+                    _IfToIfExp),
+                   ('consecutive self-updates nested into one call',
+                    _ChainNest)]
 
 
 def run_roundtrip(repo, pid, transformer=None):
